@@ -575,7 +575,7 @@ func (e *friEnv[E, P, PP, OP]) openings(pi int, pc polyCase, pp *PP, other []*bi
 				idx >>= 1
 			}
 			o := sopen{Root: tr.root(), Set: set, NumLeaves: N / 2, Index: uint64(s), Claimed: e.spec.dec(node)}
-			if fs := e.spec.verifyOpening(pos, o, e.toSpec(pp)); e.expect("inner-node-as-leaf", fs, []string{"numleaves", "merkle"}, nil) && o.Claimed.Cmp(so.Claimed) != 0 {
+			if fs := e.spec.verifyOpening(pos, o, e.toSpec(pp)); e.expect("inner-node-as-leaf", fs, []string{"merkle"}, nil) && o.Claimed.Cmp(so.Claimed) != 0 {
 				e.judgeOpening("targeted:inner-node-opened-as-leaf", pos, e.openFromSpec(o), pp, true, func() string {
 					return fmt.Sprintf("same root, numLeaves=N/2, leaf = H(leaf %d)||H(leaf %d) of the committed tree, claimed value = that string mod r (the honest opening of the same position claims %s)", 2*s, 2*s+1, so.Claimed.Text(16))
 				})
@@ -749,19 +749,15 @@ func (e *friEnv[E, P, PP, OP]) targeted(pc polyCase) {
 		in[1].Set[0] = f.enc(f.add(r, dr))
 		try("leaf-pair-changed-keeping-the-fold", sp, []string{"merkle"}, nil, "both step-0 leaves moved so that the folded value is unchanged; paths untouched")
 	}
-	// tree sizes: numLeaves for which the authentication path of the queried pair has the same shape
+	// tree sizes: the numLeaves fields are redundant (the verifier derives the sizes from the domain); a proof
+	// whose copies are altered still proves the same true statement and the model says so. Counted, not demanded.
 	for _, t := range uniq(0, f.k-1) {
-		for _, which := range []string{"both", "0", "1"} {
-			sp := sproof{Rounds: []sround{f.openChain(honestCh)}}
-			in := &sp.Rounds[0].Inter[t]
-			nl := in[0].NumLeaves - 1
-			if which != "1" {
-				in[0].NumLeaves = nl
-			}
-			if which != "0" {
-				in[1].NumLeaves = nl
-			}
-			try(fmt.Sprintf("numLeaves-minus-one/%s@%d", which, t), sp, []string{"numleaves"}, nil, fmt.Sprintf("step %d entries %s claim numLeaves=%d", t, which, nl))
+		sp := sproof{Rounds: []sround{f.openChain(honestCh)}}
+		in := &sp.Rounds[0].Inter[t]
+		in[0].NumLeaves--
+		in[1].NumLeaves--
+		if len(f.verify(sp)) == 0 {
+			e.judge(fmt.Sprintf("neutral:numLeaves-minus-one@%d", t), e.fromSpec(sp), true, func() string { return "redundant numLeaves fields altered" })
 		}
 	}
 	// second fibre opening from another tree (its own, unbound, MerkleRoot), statement false
@@ -869,7 +865,7 @@ func (e *friEnv[E, P, PP, OP]) fibreForgery(t int, try func(kind string, sp spro
 		if c == 1 {
 			par = "full-opening"
 		}
-		try(fmt.Sprintf("second-fibre-opening-from-unrelated-tree/%s-step/%s@%d", step, par, t), sproof{Rounds: []sround{sr}}, []string{"root-eq"}, nil,
+		try(fmt.Sprintf("second-fibre-opening-from-unrelated-tree/%s-step/%s@%d", step, par, t), sproof{Rounds: []sround{sr}}, []string{"merkle"}, nil,
 			fmt.Sprintf("step 0 commits to uniform values (not close to any low-degree polynomial); step %d does not fold into what follows; leaf [%d][1] replaced by %s and [%d][1].MerkleRoot by the root of that path", t, t, rp.Text(16), t))
 		if t == 0 && c == 1 {
 			// consequence for openings: the forged leaf can be "opened" against the accepted proof
